@@ -12,7 +12,8 @@ package main
 //	    then=: when the first Waiter is through (or cancelled) and the last of its tokens has passed, a SECOND, new Waiter with a
 //	    context of its own runs over the tokens of `then` on another goroutine: nothing of the first (its timer, its state) may
 //	    reach the second.
-//	mode=engine inst=<n> prof=<once:N|const:OPS:MS|line:..|step:..|pause:MS>[+...] resp=<ms,...> discard=<0|1> [perinst=1] [startup=<profile>]
+//	mode=engine inst=<n> prof=<once:N|const:OPS:MS|line:..|step:..|pause:MS>[+...] resp=<ms,...> discard=<0|1> [perinst=1] [startup=<profile>] [rot=<k>]
+//	    (rot=k: the j-th instance starts k*j entries into the response-time history, so the instances see different histories)
 //	    (OPS may be a fraction: tokens more than 2 s apart; pause:MS = const 0 rps for MS ms: a gap in the profile)
 //	    the real engine (engine.New(...).Run) with n instances (startup once(n), or the given startup schedule: instances are
 //	    started over time, so an instance can find its FIRST token already late), the real schedule constructors,
@@ -44,6 +45,7 @@ import (
 	"strconv"
 	"strings"
 	"sync"
+	"sync/atomic"
 	"time"
 
 	"verifharness/drv"
@@ -326,7 +328,7 @@ func runWaiter(m map[string]string) string {
 		// let the last token of the first waiter pass (a sleep that was cancelled has its deadline behind it)
 		last := int64(0)
 		for _, t := range toks {
-			if t > last {
+			if t > last && t < 30_000_000/int64(unit/time.Microsecond) { // tokens more than 30 s ahead are never reached (cancelled runs)
 				last = t
 			}
 		}
@@ -385,12 +387,17 @@ func runEngine(m map[string]string) string {
 		offs = append(offs, strconv.FormatInt(int64(ts.Sub(first)), 10))
 	}
 	rec := newRecorder()
+	// rot=<k>: the j-th instance (in the order the guns are made) starts k*j entries into the response-time history: the
+	// instances of one pool see DIFFERENT histories (one falls behind while another keeps up)
+	rot, _ := strconv.Atoi(m["rot"])
+	var guns atomic.Int64
 	conf := engine.InstancePoolConfig{
 		ID:         "c04",
 		Provider:   provider.NewNum(-1),
 		Aggregator: &recAggr{rec: rec},
 		NewGun: func() (core.Gun, error) {
-			return &recGun{rec: rec, resp: resp}, nil
+			j := int(guns.Add(1) - 1)
+			return &recGun{rec: rec, resp: resp, shots: (j * rot) % len(resp)}, nil
 		},
 		RPSPerInstance: m["perinst"] == "1",
 		NewRPSSchedule: func() (core.Schedule, error) {
@@ -637,6 +644,39 @@ func genWaiterFar(r *rand.Rand) string {
 	return fmt.Sprintf("mode=waiter toks=%s sleeps=%s", joinInts(toks), joinInts(sleeps))
 }
 
+// genWaiterFuture: a due token, then a token that lies FAR in the future (just beyond 2^15, 2^16, 2^31, 2^32 microseconds,
+// milliseconds or seconds, or log-uniformly 1 min .. 250 years ahead); the context is cancelled after 0.3 .. 0.6 s. The real Waiter
+// has to sleep until the cancellation (the token is not acted on); a sleep whose duration went through a narrower integer or a
+// coarser unit ends early. Sometimes a second waiter follows (`then=`).
+func genWaiterFuture(r *rand.Rand) string {
+	var ahead int64
+	if r.Intn(4) == 0 {
+		ahead = 60_000
+		for k := r.Intn(28); k > 0; k-- {
+			ahead *= 2
+		}
+		ahead += r.Int63n(ahead/2 + 1)
+		if ahead > farMax {
+			ahead = farMax - r.Int63n(1_000_000)
+		}
+	} else {
+		ahead = farEdges[r.Intn(len(farEdges))] + []int64{1, 40, 120, 250}[r.Intn(4)]
+		if ahead < 2000 {
+			ahead += 65536 // 2^15 / 2^16 us are only 33 / 66 ms: take the ms edge instead
+		}
+	}
+	cancel := 300 + r.Intn(300)
+	first := -int64(r.Intn(1500))
+	if r.Intn(3) == 0 {
+		first = int64(50 + r.Intn(150)) // a short timer sleep first: the timer is re-armed (Reset) for the far token
+	}
+	s := fmt.Sprintf("mode=waiter toks=%d,%d sleeps=0,0 cancel=%d", first, ahead, cancel)
+	if r.Intn(4) == 0 {
+		s += fmt.Sprintf(" then=%d,%d", cancel+100, cancel+300)
+	}
+	return s
+}
+
 // genWaiterLong: one or two tokens that lie 1.05 .. 2.8 s in the FUTURE when they are picked up (a timer sleep of more than a
 // second), among late and due ones
 func genWaiterLong(r *rand.Rand) string {
@@ -691,7 +731,10 @@ var respPool = []int64{0, 0, 50, 300, 700, 1000, 1500, 2100, 3000, 4000}
 
 func genSeg(r *rand.Rand, small, big bool) string {
 	if big && !small && r.Intn(5) == 0 {
-		// a dense profile: dozens of tokens per second
+		// a dense profile: dozens of tokens per second, sometimes hundreds (a discard storm: the backlog is discarded in one go)
+		if r.Intn(3) == 0 {
+			return fmt.Sprintf("const:%d:%d", 100+r.Intn(150), 1000+500*r.Intn(3))
+		}
 		return fmt.Sprintf("const:%d:%d", 25+r.Intn(40), 1000+500*r.Intn(4))
 	}
 	if !small && r.Intn(8) == 0 {
@@ -744,7 +787,11 @@ func genEngine(r *rand.Rand, thorough bool) string {
 	s := fmt.Sprintf("mode=engine inst=%d prof=%s resp=%s discard=%d", inst, prof, joinInts(resp), discard)
 	if inst > 1 && r.Intn(5) == 0 {
 		s += " perinst=1"
-	} else if inst > 1 && discard == 1 && r.Intn(4) == 0 {
+	}
+	if inst > 1 && len(resp) > 1 && r.Intn(3) == 0 {
+		s += fmt.Sprintf(" rot=%d", 1+r.Intn(len(resp)-1))
+	}
+	if inst > 1 && discard == 1 && r.Intn(4) == 0 {
 		// the instances are started one after the other (0.33 .. 1.4 s apart): late starters find their first token late
 		gap := []string{"3", "1.25", "0.7"}[r.Intn(3)]
 		ms := map[string]int{"3": 334, "1.25": 800, "0.7": 1429}[gap] * inst
@@ -772,7 +819,14 @@ func gen(r *rand.Rand, tier string) []string {
 		"mode=proc given=true lat=800 times=5 fmt=json key=upper",
 		// pools of one config with DIFFERENT settings: each pool runs with its own
 		"mode=proc given=false,none lat=800 times=5 pools=2",
-		"mode=proc given=none,false,true lat=800 times=5 pools=3 fmt=json")
+		"mode=proc given=none,false,true lat=800 times=5 pools=3 fmt=json",
+		// several instances per pool, shared profile (3 x 3 tokens are less than 2 s late, the rest is discarded) and one profile per
+		// instance (`rps-per-instance`): the option has to reach every instance the plugin factories and the pool build
+		"mode=proc given=none lat=800 times=12 inst=3",
+		// the config found by the default search (./load.yaml, no command line argument) and a config file without an extension
+		"mode=proc given=none lat=800 times=5 fmt=cwd",
+		"mode=proc given=none lat=800 times=5 fmt=noext pools=2",
+		"mode=proc given=none,false lat=800 times=5 pools=2 inst=2 perinst=1")
 	// (json file / yaml on stdin with the option left out, the mixed profile, late starters: corpus/C04.txt)
 	// scripted engine scenarios: single and several instances, const/once profiles, response-time histories 0 / 0.3 s /
 	// 1 s / 3 s and mixtures
@@ -792,11 +846,16 @@ func gen(r *rand.Rand, tier string) []string {
 		// instances started 0.8 s apart: the fourth one finds its first token 2.4 s late
 		"mode=engine inst=3 startup=const:0.7:4288 prof=const:10:3000 resp=4000,0 discard=1",
 		"mode=engine inst=3 startup=const:0.7:4288 prof=once:5 resp=300 discard=0",
+		// instances with their own schedules AND different response-time histories: the first falls 3.1 s behind at once, the second
+		// keeps up for 1.5 s and then falls behind, the third never does
+		"mode=engine inst=3 prof=const:5:4000 resp=3100,0,0,0,0,0,0,0,0,0,0,0,0,0,0,0,0,0,0,0,0,0,0,0 discard=1 perinst=1 rot=8",
 	}
 	out = append(out, quick...)
 	ne, nw, nn, nc := 10, 40, 16, 3
 	nfar, nlong, nbulk := 12, 3, 1
+	nfut := 6
 	if thorough {
+		nfut = 240
 		ne, nw, nn, nc = 800, 1800, 1200, 120
 		nfar, nlong, nbulk = 400, 60, 12
 		for _, g := range []string{"true,none", "none,false", "false,true,none", "false,false,none"} {
@@ -810,7 +869,9 @@ func gen(r *rand.Rand, tier string) []string {
 					out = append(out, fmt.Sprintf("mode=proc given=%s lat=%d times=%d pools=%d", g, lat, times, 2+times%2))
 				}
 			}
-			for _, f := range []string{"json", "toml", "stdin"} {
+			out = append(out, fmt.Sprintf("mode=proc given=%s lat=800 times=10 inst=2 pools=2", g), fmt.Sprintf("mode=proc given=%s lat=900 times=5 inst=3 perinst=1 fmt=toml", g),
+				fmt.Sprintf("mode=proc given=%s lat=800 times=16 inst=4 fmt=json", g))
+			for _, f := range []string{"json", "toml", "stdin", "cwd", "noext"} {
 				out = append(out, fmt.Sprintf("mode=proc given=%s lat=800 times=5 fmt=%s", g, f))
 				out = append(out, fmt.Sprintf("mode=proc given=%s lat=900 times=4 fmt=%s pools=2", g, f))
 				if g != "none" {
@@ -857,6 +918,9 @@ func gen(r *rand.Rand, tier string) []string {
 	for i := 0; i < nlong; i++ {
 		out = append(out, genWaiterLong(r))
 	}
+	for i := 0; i < nfut; i++ {
+		out = append(out, genWaiterFuture(r))
+	}
 	for i := 0; i < nbulk; i++ {
 		out = append(out, genWaiterBulk(r, 260+r.Intn(500)))
 	}
@@ -892,6 +956,12 @@ func class(in, obs string) string {
 		if m["key"] != "" || m["anchor"] != "" {
 			c += "/key-or-merge"
 		}
+		if m["inst"] != "" {
+			c += "/multi"
+			if m["perinst"] == "1" {
+				c += "/perinst"
+			}
+		}
 		if o["disc"] != "0" {
 			c += "/discards"
 		}
@@ -910,6 +980,9 @@ func class(in, obs string) string {
 		if m["startup"] != "" {
 			c += "/late-starters"
 		}
+		if m["rot"] != "" && m["rot"] != "0" {
+			c += "/different-histories"
+		}
 		if _, ok := m["cancel"]; ok {
 			c += "/cancel"
 		}
@@ -923,6 +996,12 @@ func class(in, obs string) string {
 		for _, t := range parseMs(m["toks"]) {
 			if t < -60_000 {
 				c += "/far-past"
+				break
+			}
+		}
+		for _, t := range parseMs(m["toks"]) {
+			if t > 30_000 && m["unit"] != "us" {
+				c += "/far-future"
 				break
 			}
 		}
@@ -984,7 +1063,7 @@ func main() {
 			"1..16 instances, shared or per-instance once/const/line/step/composite profiles (also sparse ones and ones with gaps) from the real constructors, response-time histories of 1..5 entries from " +
 			"0..4 s (slower than the inter-request interval and than 2 s), discard_overflow on and off, some runs cancelled, instances started at once or one after the other (late starters); (b) the bare coreutil.Waiter on scripted schedules: " +
 			"tokens seconds in the past / up to 0.4 s in the future relative to time.Now(), real sleeps between calls, lateness far from, a few ms and a few hundred µs around " +
-			"the 2 s threshold, minutes / days / up to 250 years late (also at the values where a narrower integer wraps), timer sleeps of more than a second, hundreds of tokens per case, cancellation during the timer sleep, a second new Waiter after a cancelled one; (c) the pandora binary with yaml / json / toml / stdin configs (1..3 pools with equal or different settings, upper-case key, yaml merge key) that omit / set discard_overflow against a slow in-process HTTP " +
-			"target that counts the requests it receives. Every decision is judged against the measured [pick-up, action] interval. non-trivial = at least one token drawn (proc: the process ran)",
+			"the 2 s threshold, minutes / days / up to 250 years late (also at the values where a narrower integer wraps), timer sleeps of more than a second, hundreds of tokens per case, cancellation during the timer sleep, a second new Waiter after a cancelled one, tokens FAR in the future (2^15..2^32 us / ms / s and up to 250 years ahead) in runs that are cancelled after 0.3..0.6 s; (c) the pandora binary with yaml / json / toml / stdin configs (1..3 pools with equal or different settings, upper-case key, yaml merge key, 1..4 instances per pool, rps-per-instance) that omit / set discard_overflow against a slow in-process HTTP " +
+			"target that counts the requests it receives (a process that rejects the driver's valid config because of the discard_overflow key is a failure). Engine runs also with instances that see DIFFERENT response-time histories (rot=) and with dense profiles (hundreds of tokens discarded in one go). Every decision is judged against the measured [pick-up, action] interval. non-trivial = at least one token drawn (proc: the process ran)",
 	})
 }
